@@ -270,6 +270,9 @@ def run(prog, rep):
     rep.attempt(comment_carry, ct, rep)
     rep.attempt(setter_delegation, ct, rep)
     rep.attempt(dispatch_exhaustive, ct, rep)
+    # 'including blocks of types the library cannot decode': their entries must at least be representable (one BlockType member per code)
+    from .c06 import code_tables
+    rep.attempt(code_tables, prog, rep)
     # 'reading it returns content equal to what was stored' also through the convenience accessors: getter, predicate and setter of
     # each group name the same block type (C11's sibling rule)
     from .c11 import accessor_agreement
